@@ -43,6 +43,7 @@ def main(run):
               mutants=['alwaysUpload'], coverage=not quick)
     rc.l2(run, ['mixed', 'shared'] if quick else ['plain', 'same', 'shared', 'indep', 'mixed'],
           num=10 if quick else 120, depth=45, seed=run.seed + 5, kinds=('extra-chunk',))
+    rc.l2_interleaved(run, ['shared', 'indep'] if quick else ['plain', 'same', 'shared', 'indep', 'mixed'], 5 if quick else 60, 40, run.seed + 27, kinds=('extra-chunk',))
     n = 3 if quick else 30
     traces = rc.histories(run, rc.ALL_GRAPHS, range(run.seed * 100, run.seed * 100 + n), 14 if quick else 30, reads=False)
     traces += repeats(run, rc.ALL_GRAPHS, range(run.seed * 10, run.seed * 10 + (1 if quick else 6)), [1, 3, 8] if quick else [1, 2, 3, 5, 8])
